@@ -2,5 +2,6 @@ SPECIFICATION TraceSpec
 CONSTANTS
   MaxBefore = 0
   MaxAfter = 0
+  MaxBeforeMarket = 0
 POSTCONDITION AllConsumed
 CHECK_DEADLOCK FALSE
